@@ -374,3 +374,34 @@ PROPS["C04"] = {
          "params": {"quick": {"FAULTS": 0, "STALE": 2}, "thorough": {"FAULTS": 0, "STALE": 4}}},
     ],
 }
+
+RETRY_STUBS = {"(*github.com/tsuna/gohbase.client).getRegionAndClientForRPC": "github.com/tsuna/gohbase.vRetryLocate"}
+
+PROPS["C17"] = {
+    "files": ["root/fakes.go", "root/c08_cache.go", "root/c01_routing.go", "root/c09_establish.go", "root/c17_backoff.go"],
+    "native_files": ["root/c17_backoff_native.go"], "native_cuts": BATCH_CUTS,
+    "claim": "For EVERY non-negative 64-bit back-off value sleepAndIncreaseBackoff requests a wait of exactly that value (none for 0, "
+             "returning 16 ms) and returns 2b below 5 s, b+5 s below 30 s, b from then on; with time standing still it returns only "
+             "through cancellation, with the context's error; 17 consecutive calls reproduce the closed-form schedule. For a single "
+             "request and for a batch, every sequence of ATTEMPTS answers over {retry-later, connection-dead, not-serving}: each "
+             "retry-later answer is followed by one wait, waits follow the schedule in order, at most two connection-level failures "
+             "are retried without a wait.",
+    "outside": "wall-clock accuracy of time.After; request rate as a real-time quantity; more than ATTEMPTS consecutive failures; the "
+               "pacing of establishRegion / lookupRegion loops is asserted structurally only (they call the same function)",
+    "assumptions": ["time.After is modelled: it records the requested duration and may fire at any later scheduling point",
+                    "getRegionAndClientForRPC is cut for the pacing jobs (the region is always found)"],
+    "jobs": [
+        {"name": "backoff_formula", "pkg": "root", "entry": "VerifBackoffFormula", "reach": ["zero", "doubling", "linear", "constant"], "no_native": True,
+         "params": {"quick": {"SMALL": 0}, "thorough": {"SMALL": 0}}},
+        {"name": "backoff_formula_small", "pkg": "root", "entry": "VerifBackoffFormula", "reach": ["zero", "doubling"],
+         "params": {"quick": {"SMALL": 1}, "thorough": {"SMALL": 1}}},
+        {"name": "backoff_cancel", "pkg": "root", "entry": "VerifBackoffCancel", "reach": ["cancelled"], "no_native": True,
+         "params": {"quick": {}, "thorough": {}}},
+        {"name": "backoff_schedule", "pkg": "root", "entry": "VerifBackoffSchedule", "reach": ["schedule"], "no_native": True,
+         "params": {"quick": {}, "thorough": {}}},
+        {"name": "retry_pacing_single", "pkg": "root", "entry": "VerifRetryPacing", "stubs": RETRY_STUBS, "reach": ["paced"], "watchdog": 30,
+         "params": {"quick": {"ATTEMPTS": 4, "BATCH": 0}, "thorough": {"ATTEMPTS": 6, "BATCH": 0}}},
+        {"name": "retry_pacing_batch", "pkg": "root", "entry": "VerifRetryPacing", "stubs": RETRY_STUBS, "reach": ["paced"], "watchdog": 30,
+         "params": {"quick": {"ATTEMPTS": 4, "BATCH": 1}, "thorough": {"ATTEMPTS": 6, "BATCH": 1}}},
+    ],
+}
